@@ -40,9 +40,17 @@ func VerifC04Isolation() {
 	script := sb.String() + "-- f1.txt --\none\n-- sub/f2.txt --\ntwo\n"
 	fsys := vNewFS([]byte(script))
 	files := []string{vScriptFile}
+	// two scripts: given as files, or found in a directory where they share their stem (s.txt, s.txtar)
+	dirMode := false
 	if nscripts == 2 {
-		fsys.PutFile("/scripts/t.txt", []byte(script), 1)
-		files = append(files, "/scripts/t.txt")
+		dirMode = rt.Bool()
+		if dirMode {
+			fsys.PutFile("/scripts/s.txtar", []byte(script), 1)
+			rt.Reach("directory-with-same-stem-scripts")
+		} else {
+			fsys.PutFile("/scripts/t.txt", []byte(script), 1)
+			files = append(files, "/scripts/t.txt")
+		}
 	}
 	// host environment: pass-through variables present or not, plus others
 	fsys.Env["SECRET"] = "s3cr3t"
@@ -103,6 +111,9 @@ func VerifC04Isolation() {
 	}
 	if keepRoot {
 		p.WorkdirRoot = "/keep"
+	}
+	if dirMode {
+		p.Files, p.Dir = nil, vScriptDir
 	}
 	root := &vT{name: "root"}
 	RunT(root, p)
